@@ -267,7 +267,11 @@ func c31Run(raw json.RawMessage) (res Result, err error) {
 	suffix, multOK, mult1 := "", false, false
 	if m := c31Re.FindStringSubmatch(in.Str); m != nil {
 		suffix = m[2]
-		if v, e := strconv.ParseInt(m[1], 10, 64); e == nil && v >= 1 {
+		v, e := strconv.ParseInt(m[1], 10, 64) // on overflow v is clamped to MaxInt64, as Atoi's ignored-error result in the code
+		if ne, isNum := e.(*strconv.NumError); e == nil || (isNum && ne.Err == strconv.ErrRange) {
+			e = nil
+		}
+		if e == nil && v >= 1 {
 			u := c31Units[suffix]
 			multOK = u == 0 || v <= (1<<63-1)/u
 			mult1 = v == 1
@@ -281,8 +285,13 @@ func c31Run(raw json.RawMessage) (res Result, err error) {
 			windowOK = tab.CrossOK(d*86400) && tab.CrossOK(d2*86400) && d < d2
 		case "W":
 			windowOK = mult1 && tab.OffsetAt(in.Sec) == 0 && tab.OffsetAt(ts.Truncate(dur).Unix()) == 0
-		case "M", "Y":
-			windowOK = false
+		case "M":
+			ly, lm, _ := ts.Date()
+			d0 := time.Date(ly, lm, 1, 0, 0, 0, 0, time.UTC).Unix() / 86400
+			d1 := time.Date(ly, lm+1, 1, 0, 0, 0, 0, time.UTC).Unix() / 86400
+			windowOK = tab.CrossOK(d0*86400) && tab.CrossOK(d1*86400)
+		case "Y":
+			windowOK = tab.OffsetAt(in.Sec) == tab.OffsetAt(ts.Truncate(dur).Unix())
 		default:
 			windowOK = true
 		}
